@@ -58,7 +58,10 @@ def proof_stage(plan, ev):
             os.makedirs(ev['work'], exist_ok=True)
             shutil.copy(LEAN + '/.lake/build/bin/driver', ev['work'] + '/driver')
         modules = [plan['module']] + plan.get('extra_modules', [])
-        b = run(['lake', 'build'] + modules, cwd=LEAN)
+        build_targets = list(modules)
+        if any(r.get('srcgen') for r in plan.get('runs', [])):
+            build_targets.append('RucteProofs.SrcGen')      # generator of cases from the theorems' own domain
+        b = run(['lake', 'build'] + build_targets, cwd=LEAN)
         if b.returncode != 0 or d.returncode != 0:
             errs = [l for l in (d.stdout + b.stdout).split('\n') if l.startswith('error:')]
             res['detail'] = 'lake build failed: theorem(s) no longer check:\n' + '\n'.join(errs[:12]) + '\n' + b.stdout[-1500:]
